@@ -609,8 +609,8 @@ unsafe impl Kernel<u8, i8, i32> for Avx2Int8Kernel {
         depth: usize,
         _alpha: f32,
         beta: i32,
-        _a_quant: Option<QuantParams<u8>>,
-        _b_quant: Option<QuantParams<i8>>,
+        a_quant: Option<QuantParams<u8>>,
+        b_quant: Option<QuantParams<i8>>,
     ) {
         let a_data = match a {
             Lhs::Packed(data) => data,
@@ -619,6 +619,22 @@ unsafe impl Kernel<u8, i8, i32> for Avx2Int8Kernel {
 
         let (a_data, a_meta) = packing::int8::extract_packed_a::<{ Self::MR }>(a_data);
         let (b, b_meta) = packing::int8::extract_packed_b::<{ Self::NR }>(b);
+
+        // Zero points given for this call take precedence over the ones
+        // recorded when the operand was packed (prepacked operands are packed
+        // without quantization parameters).
+        let mut a_zero_points = a_meta.zero_points;
+        if let Some(aq) = a_quant {
+            for (dst, zp) in a_zero_points.iter_mut().zip(aq.zero_point) {
+                *dst = *zp as i32;
+            }
+        }
+        let mut b_zero_points = b_meta.zero_points;
+        if let Some(bq) = b_quant {
+            for (dst, zp) in b_zero_points.iter_mut().zip(bq.zero_point) {
+                *dst = *zp as i32;
+            }
+        }
 
         const NR_REGS: usize = Avx2Int8Kernel::NR / AVX2_X32_LANES;
         simd_int8_gemm::<_, _, { Self::MR }, { Self::NR }, NR_REGS>(
@@ -631,8 +647,8 @@ unsafe impl Kernel<u8, i8, i32> for Avx2Int8Kernel {
             used_cols,
             depth,
             beta != 0, // accumulate
-            a_meta.zero_points,
-            b_meta.zero_points,
+            a_zero_points,
+            b_zero_points,
             &a_meta.row_sums,
             &b_meta.col_sums,
             self.isa,
@@ -835,8 +851,8 @@ unsafe impl Kernel<u8, i8, i32> for Avx512Int8Kernel {
         depth: usize,
         _alpha: f32,
         beta: i32,
-        _a_quant: Option<QuantParams<u8>>,
-        _b_quant: Option<QuantParams<i8>>,
+        a_quant: Option<QuantParams<u8>>,
+        b_quant: Option<QuantParams<i8>>,
     ) {
         let a_data = match a {
             Lhs::Packed(data) => data,
@@ -845,6 +861,22 @@ unsafe impl Kernel<u8, i8, i32> for Avx512Int8Kernel {
 
         let (a_data, a_meta) = packing::int8::extract_packed_a::<{ Self::MR }>(a_data);
         let (b, b_meta) = packing::int8::extract_packed_b::<{ Self::NR }>(b);
+
+        // Zero points given for this call take precedence over the ones
+        // recorded when the operand was packed (prepacked operands are packed
+        // without quantization parameters).
+        let mut a_zero_points = a_meta.zero_points;
+        if let Some(aq) = a_quant {
+            for (dst, zp) in a_zero_points.iter_mut().zip(aq.zero_point) {
+                *dst = *zp as i32;
+            }
+        }
+        let mut b_zero_points = b_meta.zero_points;
+        if let Some(bq) = b_quant {
+            for (dst, zp) in b_zero_points.iter_mut().zip(bq.zero_point) {
+                *dst = *zp as i32;
+            }
+        }
 
         const NR_REGS: usize = Avx512Int8Kernel::NR / AVX512_X32_LANES;
         if let Some(vnni_dot) = self.vnni_dot {
@@ -858,8 +890,8 @@ unsafe impl Kernel<u8, i8, i32> for Avx512Int8Kernel {
                 used_cols,
                 depth,
                 beta != 0, // accumulate
-                a_meta.zero_points,
-                b_meta.zero_points,
+                a_zero_points,
+                b_zero_points,
                 &a_meta.row_sums,
                 &b_meta.col_sums,
                 vnni_dot,
@@ -875,8 +907,8 @@ unsafe impl Kernel<u8, i8, i32> for Avx512Int8Kernel {
                 used_cols,
                 depth,
                 beta != 0, // accumulate
-                a_meta.zero_points,
-                b_meta.zero_points,
+                a_zero_points,
+                b_zero_points,
                 &a_meta.row_sums,
                 &b_meta.col_sums,
                 self.isa, // Use non-VNNI dot product
